@@ -164,7 +164,7 @@ func genConfigText(g *G) (text, class, tag string) {
 	case k < 75:
 		return mustJSON(append(pools, pools[0])), "cfg-duplicate-pool", ""
 	case k < 78:
-		return g.pick("[]", "null", "[null]", "[{}]", "{}", "\"\"", "", "[[]]", "0"), "cfg-empty", ""
+		return g.pick("[]", "null", "[null]", "[null,null]", "[{}]", "{}", "\"\"", "", "[[]]", "0"), "cfg-empty", ""
 	case k < 90:
 		return string(g.mutate([]byte(mustJSON(pools)))), "cfg-mutated", ""
 	case k < 94:
